@@ -59,6 +59,12 @@ CHECKS = {
    text="The property's relations (build iff-cases, apply result, exact rollback, reverse restore, XML round trip with refname) are checked against real executions for every scenario of the bounded model (<= 3 edits, <= 3 entries) plus simulated longer ones; exhaustive within those bounds and sampled beyond.",
    design_ref="DESIGN.md section 6, C16",
    note="Trusted: projection in hwv_diff.c (public API only), TLC, Json module. Topologies are synthetic; distances/memattrs/cpukinds inequality paths and allocation failures are not explored."),
+ "C13": dict(
+   technique="explicit TLA+ specification of the distances store (spec/Distances.tla, MC_Distances.tla: separate create/values/commit actions, queries, transforms, removals, restrict/dup/XML/shmem) checked exhaustively by TLC on bounded configurations; TLC-emitted behaviours are replayed on the ASan/UBSan-built library and every recorded call is validated by TLC against the same relations (spec/TraceDistances.tla)",
+   category="model_checking",
+   text="The property relations are checked on the complete bounded state graphs, and the TLC-generated behaviours plus the bundled XML inputs with distances are validated event by event against the real code: every event carries the full hwloc_distances_get state, compared as a bag with what the relation allows. Bounds: <= 4 objects per matrix in the model (7 in simulation), <= 3 structures, values below 2^24, edges striped in the quick tier.",
+   design_ref="DESIGN.md section 6, C13",
+   note="Trusted: TLC with the Json module, the recorder (no oracle logic), gp_index stability across dup and v3 XML. Returned order is not checked (bag comparison). Grouping quality is not specified; only hwloc_topology_check after GROUP commits. Must/May sets where the documentation leaves things open."),
 }
 NA_REASON = {}
 
